@@ -14,8 +14,8 @@ import random
 import re
 from pathlib import Path
 
-from common import (Ctx, MachineryError, SPEC, coverage_zero_actions, finish, import_naunet, quiet, require_clean_mc,
-                    run_tlc, validate_traces)
+from common import (Ctx, MachineryError, SPEC, coverage_zero_actions, finish, import_naunet, parse_tla, quiet,
+                    require_clean_mc, run_tlc, validate_traces)
 import netrec
 
 C15_CLAUSES = {"DupReport", "DupFirst", "Inv:ReportIsDecl", "Inv:RemovalSound"}
@@ -43,59 +43,6 @@ def mk(desc):
     if len(desc) > 5:
         kw["idxfromfile"] = desc[5]
     return Reaction(list(r), list(p), temp_min=lo, temp_max=hi, reaction_type=ReactionType(ty), **kw)
-
-
-# ------------------------------------------------------------------------------- TLA value parsing (simulate files)
-
-def parse_tla(s: str):
-    s = s.strip()
-    pos = 0
-
-    def ws():
-        nonlocal pos
-        while pos < len(s) and s[pos] in " \n\t":
-            pos += 1
-
-    def val():
-        nonlocal pos
-        ws()
-        if s.startswith("<<", pos):
-            pos += 2
-            items = []
-            ws()
-            while not s.startswith(">>", pos):
-                items.append(val())
-                ws()
-                if s[pos] == ",":
-                    pos += 1
-                ws()
-            pos += 2
-            return items
-        if s[pos] == "{":
-            pos += 1
-            items = []
-            ws()
-            while s[pos] != "}":
-                items.append(val())
-                ws()
-                if s[pos] == ",":
-                    pos += 1
-                ws()
-            pos += 1
-            return set(items) if all(isinstance(x, (int, str)) for x in items) else items
-        if s[pos] == '"':
-            e = s.index('"', pos + 1)
-            v = s[pos + 1:e]
-            pos = e + 1
-            return v
-        m = re.match(r"-?\d+", s[pos:])
-        if m:
-            pos += m.end()
-            return int(m.group())
-        m = re.match(r"[A-Za-z_]\w*", s[pos:])
-        pos += m.end()
-        return m.group()
-    return val()
 
 
 def sim_histories(ctx: Ctx, n: int, depth: int, wild: bool) -> list[list]:
